@@ -1,4 +1,5 @@
 import Txtpp.Lemmas.Term
+import Txtpp.Lemmas.Failing
 /-!
 # Property C04 — no false success: a failure in any file fails the whole run
 -/
@@ -20,56 +21,12 @@ theorem failing_pass_is_err (w : World) (f : File) :
 
 /-- only a non-failing pass of `a` itself reports `ok a` -/
 theorem result_ok (w : World) (a b : File) (first : Bool) (h : w.result (.pp a first) = .ok b) :
-    b = a ∧ w.failFinal a = false := by
-  cases first with
-  | false =>
-    simp only [World.result] at h
-    split at h
-    · cases h
-    · rename_i hf; cases h; exact ⟨rfl, by simpa using hf⟩
-  | true =>
-    simp only [World.result] at h
-    split at h
-    · split at h
-      · cases h
-      · rename_i hf; cases h
-        simp only [Bool.or_eq_true, not_or, Bool.not_eq_true] at hf
-        exact ⟨rfl, hf.2⟩
-    · split at h <;> cases h
+    b = a ∧ w.failFinal a = false := Coord.result_ok w a b first h
 
 /-- a file whose final pass fails is never finished: in no reachable state (i.e. while no error has
 been delivered) is it in the finished set — so a run that reports success cannot contain it -/
 theorem failing_never_finished (w : World) (inputs : List File) (s : St) (h : Reach w inputs s) (f : File)
-    (hf : w.failFinal f = true) : f ∉ s.dm.fin := by
-  induction h with
-  | init =>
-    have : (init inputs).dm = _ := execFiles_dm _ _ _
-    rw [this]; simp
-  | step s s' hr hs ih =>
-    cases hs with
-    | deliver t ht hc =>
-      cases t with
-      | pp a first =>
-        by_cases hok : ∃ b, w.result (.pp a first) = .ok b
-        · obtain ⟨b, hb⟩ := hok
-          rw [hb] at hc
-          have hfin := handle_ok_fin _ _ _ hc
-          rw [hfin]
-          simp only [List.mem_cons, not_or]
-          refine ⟨?_, ih⟩
-          -- the result `.ok b` comes from a pass of `b = a` that did not fail
-          intro hfb
-          obtain ⟨hba, hnf⟩ := result_ok w a b first hb
-          rw [hfb, hba] at hf
-          rw [hf] at hnf; cases hnf
-        · -- hasDeps: fin unchanged; err: no step
-          cases hr' : w.result (.pp a first) with
-          | ok b => exact absurd ⟨b, hr'⟩ hok
-          | err => rw [hr'] at hc; simp [handle] at hc
-          | hasDeps a' ds =>
-            rw [hr'] at hc
-            have := handle_hasDeps_fin _ _ _ _ hc
-            rw [this]; exact ih
+    (hf : w.failFinal f = true) : f ∉ s.dm.fin := Coord.failing_never_finished w inputs s h f hf
 
 /-- success ⇒ every seen file finished (C03) ⇒ none of them fails: a run over a project in which a
 required file fails cannot end in a state that reports success -/
